@@ -147,6 +147,15 @@ class Ctx:
         seam.install(ipoints=bool(spec.get('kill')))
         return engine.run_threads_node(self.a5, seam, spec, hot=self.hotset)
 
+    def _sweep_child(self, spec, ks):
+        _limit_memory()
+        seam = engine.Seam(self.root, spec.get('gran', 'line'))
+        seam.install()
+        return engine.run_threads_sweep_node(self.a5, seam, spec, ks, hot=self.hotset)
+
+    def run_sweep(self, spec, ks, wall=3000.0):
+        return forks.fork_call(self._sweep_child, (spec, ks), wall)
+
     def _seq_child(self, spec):
         _limit_memory()
         seam = engine.Seam(self.root, 'line')
